@@ -22,6 +22,23 @@ import itertools as _it
 _EPOCH = _it.count(1)
 
 
+def _free_consts(e):
+    """uninterpreted constants occurring in e"""
+    out, seen, stack = [], set(), [e]
+    while stack:
+        x = stack.pop()
+        if x.get_id() in seen:
+            continue
+        seen.add(x.get_id())
+        if z3.is_quantifier(x):
+            stack.append(x.body())
+        elif z3.is_app(x):
+            if x.num_args() == 0 and x.decl().kind() == z3.Z3_OP_UNINTERPRETED:
+                out.append(x)
+            stack.extend(x.children())
+    return out
+
+
 class CallMixin(ExprMixin):
 
     # ------------------------------------------------------------------ dispatch
@@ -100,11 +117,33 @@ class CallMixin(ExprMixin):
             bound.append(c)
             new[p.arg] = V(ty, c)
         self.spec_locals = new
+        if not hasattr(self, 'qfacts') or self.qfacts is None:
+            self.qfacts = []
+        self.qfacts.append([])
+        if getattr(self, 'qbound', None) is None:
+            self.qbound = []
+        self.qbound.append(bound)
         try:
             body = self.truth(self.eval(lam.body))
         finally:
             self.spec_locals = saved
-        return mk_bool(z3.ForAll(bound, body) if which == 'forall' else z3.Exists(bound, body))
+            facts = self.qfacts.pop()
+            self.qbound.pop()
+        # typing guards of list elements read in the body (deduplicated); those not mentioning a bound variable go outward
+        seen, mine = set(), []
+        from .smt import _symbols
+        bnames = {str(b) for b in bound}
+        for f in facts:
+            if f.get_id() in seen:
+                continue
+            seen.add(f.get_id())
+            if bnames & {str(x) for x in _free_consts(f)}:
+                mine.append(f)
+            elif self.qfacts:
+                self.qfacts[-1].append(f)
+        if which == 'forall':
+            return mk_bool(z3.ForAll(bound, z3.Implies(z3.And(*mine), body) if mine else body))
+        return mk_bool(z3.Exists(bound, z3.And(*(mine + [body])) if mine else body))
 
     def ghost(self, name: str) -> V:
         return self.lookup(name)
@@ -240,7 +279,13 @@ class CallMixin(ExprMixin):
                     recv = V(other.ty, self.mk_list(other.ty.args[0], self.list_elems(other), z3.IntVal(0)).term, recv.loc)
                 else:
                     raise Unsupported('extend element type mismatch')
-            self.mutate(recv, V(recv.ty, self.list_concat(recv, other).term, recv.loc))
+            cat = self.list_concat(recv, other).term
+            if not self.spec_mode:
+                # name the concatenation: every later occurrence is a constant, not a copy of the nested lambda term
+                c = z3.Const(fresh_name('extended'), cat.sort())
+                self.assume(c == cat)
+                cat = c
+            self.mutate(recv, V(recv.ty, cat, recv.loc))
             return mk_none()
         if meth == 'remove':
             x = coerce(self.eval(n.args[0]), recv.ty.args[0])
@@ -668,6 +713,8 @@ class CallMixin(ExprMixin):
                 return self.spec.builtins['Task#await'](self, v)
             if d[0] == 'future':
                 return self.spec.builtins['Future#await'](self, v)
+        if v.ty.kind == 'obj' and v.ty.cls == 'Task':
+            return self.spec.builtins['Task#await'](self, v)
         if v.ty.kind == 'obj':
             key = self.spec.methods.get((v.ty.cls, '__await__'))
             if isinstance(key, str):
